@@ -28,10 +28,14 @@ pub async fn handle_did_open_text_document(
     let (uri, session) = state.uri_and_session_from_workspace(&params.text_document.uri)?;
     state.documents.handle_open_file(&uri).await;
 
-    send_new_compilation_request(state, session.clone(), &uri, None, false, sync_workspace);
+    // Mark the server as compiling *before* the request is sent. Doing it afterwards races with the
+    // compilation thread: when that thread had already finished the request (and reset the flag),
+    // the flag stayed `true` forever, `wait_for_parsing` below never returned and every later
+    // request cancelled the compilation it had just asked for.
     #[cfg(fuellabs_sway_verif)]
     crate::verif::point("open:is_compiling=true", state.verif_id());
     state.is_compiling.store(true, Ordering::SeqCst);
+    send_new_compilation_request(state, session.clone(), &uri, None, false, sync_workspace);
     state.wait_for_parsing().await;
     state
         .publish_diagnostics(uri, params.text_document.uri, session)
